@@ -35,6 +35,7 @@ PTFS = {
 BEZ = 5e-4          # matplotlib's cubic Bezier approximation of a circular arc: <= 5e-4 * radius
 BAND = 1e-4         # relative band around RADIUS_THRESHOLD in which either drawing is accepted
 VIEW_X = 7.0        # half-plane: |x| bound of finite vertices (inside the off-screen bounds +-7.2)
+MIN_SEP = 0.05      # smallest Klein distance between two lattice points
 DIAG = None         # debugging aid: set to a list to collect (kind, model, radius, observed, tolerance)
 
 
@@ -188,14 +189,30 @@ def edge_table(model, Kt, thr):
         else:
             cls = "E"
         A, B = Vs[e], Vs[(e + 1) % k]
+        # chord_allow: how far a point of the straight substitute may be from the chord (half-plane:
+        # the library's vertical segment through the first end point is within |x_B - x_A| of it)
+        chord_allow = tol_pt(np.concatenate([A, B])) + (abs(B[0] - A[0]) if model == "halfspace" else 0.0)
         if cls == "S":
             tv = tol_pt(np.concatenate([A, B]))
-            allow = tv + (abs(B[0] - A[0]) if model == "halfspace" else 0.0)
+            allow = chord_allow
         else:
             tv = tol_arc(r)
             allow = tv
-        edges.append({"A": A, "B": B, "c": c, "r": r, "cls": cls, "tv": tv, "allow": allow})
+            chord_allow = chord_allow + tv
+        edges.append({"A": A, "B": B, "c": c, "r": r, "cls": cls, "tv": tv, "allow": allow, "chord_allow": chord_allow})
     return Vs, edges
+
+
+def bezier_allowance(p, ed):
+    """Euclidean allowance for the points of one drawn piece on an arc of radius r: a cubic piece
+    spanning the angle theta (seen from the oracle centre) may deviate by BEZ r (theta / 45deg)^6
+    (sixth-order accuracy of the cubic arc approximation, anchored at matplotlib's largest piece);
+    a straight piece is not an approximation of the arc at all: no allowance."""
+    if p.kind in ("L", "Z"):
+        return 0.0
+    u, w = p.start - ed["c"], p.end - ed["c"]
+    theta = abs(math.atan2(u[0] * w[1] - u[1] * w[0], float(u @ w)))
+    return BEZ * ed["r"] * min((theta / (0.25 * math.pi)) ** 6, 64.0)
 
 
 def arc_path_check(model, Kt, verts, codes, thr, site):
@@ -235,21 +252,21 @@ def arc_path_check(model, Kt, verts, codes, thr, site):
         if not bool(np.all(ins)):
             out.append(V("%s/outside-model/%s" % (site, model), "edge %d: drawn point %s is not inside the model" % (e, fmt(X[~ins][0]))))
             break
-        if ed["cls"] == "S":
+        if ed["cls"] == "S" or (ed["cls"] == "E" and p.kind in ("L", "Z")):
             if p.kind not in ("L", "Z"):
                 out.append(V("%s/threshold/curve-above-threshold/%s" % (site, model),
                              "edge %d has circle radius %.6g > RADIUS_THRESHOLD %g but is drawn with a %s piece" % (e, ed["r"], thr, p.kind)))
                 break
             dev = max(dg.dist_to_segment(x, A, B) for x in X)
             if DIAG is not None:
-                DIAG.append(("S", model, ed["r"], dev, ed["allow"]))
-            if dev > ed["allow"]:
+                DIAG.append(("S", model, ed["r"], dev, ed["chord_allow"]))
+            if dev > ed["chord_allow"]:
                 out.append(V("%s/straight-edge/off-chord/%s" % (site, model),
                              "edge %d (radius %.6g, straight substitute): drawn point %.3g away from the chord %s-%s (allowed %.3g)" % (
-                                 e, ed["r"], dev, fmt(A), fmt(B), ed["allow"])))
+                                 e, ed["r"], dev, fmt(A), fmt(B), ed["chord_allow"])))
                 break
         else:
-            delta = BEZ * ed["r"] + ed["tv"]
+            delta = bezier_allowance(p, ed) + ed["tv"]
             rho = dg.conformal_bound(model, X, delta)
             ld = dg.line_distance(model, A, B, X)
             ex = dg.edge_excess(model, A, B, X)
@@ -273,9 +290,10 @@ def arc_path_check(model, Kt, verts, codes, thr, site):
                 out.append(V("%s/off-edge/%s" % (site, model), "edge %d from %s to %s (radius %.6g), %s piece: %s" % (
                     e, fmt(A), fmt(B), ed["r"], p.kind, bad)))
                 break
-        if np.linalg.norm(p.end - B) <= ed["allow"]:
+        reach = ed["chord_allow"] if p.kind in ("L", "Z") else ed["allow"]
+        if np.linalg.norm(p.end - B) <= reach:
             e += 1
-            slack = ed["allow"]
+            slack = reach
     else:
         if e < k:
             out.append(V("%s/not-closed/%s" % (site, model),
@@ -900,18 +918,22 @@ def case_wrongdim(case):
 EXTRA_POINTS = [
     [0.3, 0.4], [-0.45, -0.6],      # collinear with the origin, off the axes
     [0.5, 0.25],                    # collinear with (0, .5) and the half-plane's point at infinity (1, 0)
-    [-0.5, 0.004],                  # with (.5, 0): disc circle radius ~ 250 (> RADIUS_THRESHOLD)
+    [-0.4, 0.0036],                 # with (.5, 0): disc circle radius ~ 500 (> RADIUS_THRESHOLD)
     [0.02, -0.6],                   # with (0, .5): radius ~ 110
-    [0.05, -0.6],                   # with (0, .5): radius ~ 45 (< RADIUS_THRESHOLD)
+    [0.06, -0.7],                   # with (0, .5): radius ~ 40 (< RADIUS_THRESHOLD)
     [0.52, 0.3],                    # with (0, .5): nearly vertical in the half-plane
 ]
 
 
 def point_lattice(seed, m_generic):
-    pts = [list(map(float, p)) for p in lattice.klein_points(2, m_generic=m_generic, seed=seed)]
-    for p in EXTRA_POINTS:
-        if not any(np.allclose(p, q) for q in pts):
-            pts.append([float(x) for x in p])
+    """Corner + generic points of mc.lattice plus the special points; a point closer than MIN_SEP to
+    an earlier one is dropped (short edges are a conditioning question, not a drawing question)."""
+    cand = [list(map(float, p)) for p in lattice.klein_points(2, m_generic=m_generic + 4, seed=seed)]
+    corner, generic = cand[:8], cand[8:]
+    pts = []
+    for p in corner + [[float(x) for x in e] for e in EXTRA_POINTS] + generic:
+        if len(pts) < 8 + len(EXTRA_POINTS) + m_generic and all(math.dist(p, q) >= MIN_SEP for q in pts):
+            pts.append(p)
     return pts
 
 
@@ -969,8 +991,9 @@ def run(ctx):
                 "transform x all ordered vertex tuples / point pairs / centre-reference pairs of the lattices; a case is "
                 "non-trivial when at least one drawn object has a curved (arc) edge or a Klein/projective vertex list")
     ctx.assume("objects are 2-dimensional with float coordinates; polygon vertices pairwise distinct, not all collinear, "
-               "at Klein radius <= 0.9 before the drawing transform (<= 0.97 after), pairwise >= 1e-3 apart in model coordinates "
-               "(the library's DISTANCE_THRESHOLD is 1e-4)")
+               "at Klein radius <= 0.9 before the drawing transform (<= 0.97 after), pairwise >= 0.05 apart in Klein coordinates "
+               "(the library's DISTANCE_THRESHOLD for chaining arcs is 1e-4 in model coordinates, and the ideal end points of a "
+               "segment of Klein length d carry a relative error ~1e-8/d)")
     ctx.assume("half-plane: finite vertices/end points have |x| <= 7 (inside the default view's off-screen bounds +-7.2); ideal "
                "points are the point at infinity exactly or >= 0.1 rad away from it; other tuples are skipped and counted as 'skipped'")
     ctx.assume("edges whose oracle circle radius lies within 1e-4 (relative) of RADIUS_THRESHOLD may be drawn either way")
@@ -979,14 +1002,15 @@ def run(ctx):
     ctx.assume("horospheres of half-plane radius >= RADIUS_THRESHOLD with finite centre: nothing demanded (substituted by a rectangle)")
     ctx.assume("the order of the artists of a composite object and of the data points of a composite point is not fixed by the property")
     ctx.assume("colours, z-order, line styles are not examined")
-    ctx.tolerances["bezier"] = ("Euclidean delta = 5e-4*r + tol_arc(r) for sampled points of a drawn arc of radius r (DESIGN 4: accuracy class of "
-                                "matplotlib's cubic Bezier approximation of circular arcs).  Path.arc splits an arc into 2^ceil(extent/90deg) "
-                                "pieces, i.e. pieces of at most 45 degrees, whose radial error measured with this module's de Casteljau "
-                                "evaluator is 2.75e-5*r; 5e-4*r leaves a factor 18.  Largest observed ratio error/tolerance on the unchanged "
-                                "tree: 0.05.  A realistic defect (arc not reversed, wrong end point, chord instead of arc) is off by the size "
-                                "of the edge, >= 1e-2")
+    ctx.tolerances["bezier"] = ("Euclidean delta = 5e-4*r*(theta/45deg)^6 + tol_arc(r) for the sampled points of a CURVE4 piece that spans the angle "
+                                "theta of a drawn arc of radius r; straight pieces on an arc edge get tol_arc(r) only.  5e-4*r is DESIGN 4's "
+                                "accuracy class of matplotlib's Bezier circle approximation at its largest piece (Path.arc splits an arc into "
+                                "2^ceil(extent/90deg) pieces, at most 45 degrees each); the cubic arc approximation is sixth-order accurate: "
+                                "measured with this module's de Casteljau evaluator the radial error is 2.9e-5*r*(theta/45deg)^6 within 7% "
+                                "for theta from 2 to 90 degrees, so the allowance keeps a factor 16 at every piece angle.  A realistic defect "
+                                "(arc not reversed, chord instead of arc, wrong end point) is off by the sagitta or the size of the edge")
     ctx.tolerances["on-edge (metric)"] = (
-        "for a sampled point x at Euclidean distance <= delta = 5e-4*r + tol_arc(r) from the true edge: hyperbolic distance from "
+        "for a sampled point x at Euclidean distance <= delta (see bezier) from the true edge: hyperbolic distance from "
         "the geodesic line <= rho*delta + 1e-6 and d(A,x)+d(x,B)-d(A,B) <= 2*(rho*delta + 1e-6), rho = sup of the conformal "
         "factor (2/(1-|x|^2), 1/y) on the delta-ball around x [triangle inequality: the excess is at most twice the distance "
         "to the edge; 1e-6 = arccosh-near-1 class]; when the delta-ball leaves the model the Euclidean circle residual <= delta is used")
@@ -1003,11 +1027,11 @@ def run(ctx):
 
     product("polygons-3", "checks.c19:case_polygons", polygon_cases(pts, [3], combos),
                 domains=dict(dom, tuples="all ordered non-degenerate vertex triples of a %d-point Klein lattice" % len(pts)), chunk=4)
-    sub4 = [sub[i] for i in (0, 1, 4, 5, 7, 9)] if q else [sub[i] for i in (0, 1, 2, 4, 5, 7, 9, 11, 13)]
+    sub4 = [sub[i] for i in (0, 1, 4, 5, 8, 11)] if q else [sub[i] for i in (0, 1, 2, 4, 5, 7, 8, 11, 12)]
     product("polygons-4-5", "checks.c19:case_polygons", polygon_cases(sub4, [4] if q else [4, 5], combos),
                 domains={"sub-lattice": sub4, "tuples": "all ordered non-degenerate %s-tuples, convex or not" % ("4" if q else "4- and 5")}, chunk=2)
     if not q:
-        big = [sub[i] for i in (0, 1, 4, 5, 7, 9, 11, 13)]
+        big = [sub[i] for i in (0, 1, 4, 5, 7, 8, 11, 12)]
         cases = []
         for (model, tf) in combos:
             for k in (6, 7, 8):
